@@ -681,7 +681,15 @@ ApplyRaw(T, o) ==
       \* the live constraint tables must equal the pinned ones (a silent edit of the tables is reported as such)
       [] o.op = "ConstraintTables" -> R(T, "ok", [k |-> "tables", svc |-> ServiceConstraints, node |-> NodeConstraints, link |-> LinkLayer])
 
-Apply(T, o) == WithHandles(o, ApplyRaw(T, o))
+\* a creating call that is otherwise fine but carries an invalid property (an unknown property name, or a value of the
+\* wrong type) fails as a whole: nothing of what it would have created remains
+BadProp(o) == IF "bad" \in DOMAIN o THEN o.bad ELSE "none"
+ApplyChecked(T, o) ==
+    \* (a service's own properties are set when it is created, before its interfaces are connected one by one)
+    LET r == IF o.op = "AddService" /\ BadProp(o) # "none" THEN AddService(T, o.name, o.nstype, <<>>, o.site, Fn(o.rp)) ELSE ApplyRaw(T, o) IN
+    IF BadProp(o) = "none" \/ r.out # "ok" THEN r
+    ELSE Fail(T, IF BadProp(o) = "unknown" THEN "AttributeError" ELSE "AssertionError")
+Apply(T, o) == WithHandles(o, ApplyChecked(T, o))
 
 \* ------------------------------------------------------------------ the published graph rules (C07)
 \* transcribed from fim/graph/data/graph_validation_rules.json and the containment structure
